@@ -438,16 +438,26 @@ where
             {
                 let start: usize = bit_start + thread_index * chunk_size;
 
+                #[cfg(feature = "verif")]
+                let verif_tok: u64 = poulpy_hal::verif::spawn_prepare();
                 scope.spawn(move || {
+                    #[cfg(feature = "verif")]
+                    let _verif_guard = poulpy_hal::verif::thread_begin(verif_tok);
                     let (mut tmp_ggsw, scratch_1) = scratch_thread.take_ggsw(ggsw_infos);
                     let (mut tmp_lwe, scratch_2) = scratch_1.take_lwe(bits);
                     for (local_bit, dst) in res_bits_chunk.iter_mut().enumerate() {
+                        #[cfg(feature = "verif")]
+                        poulpy_hal::verif::yield_point(poulpy_hal::verif::SITE_PREPARE_ITEM, start + local_bit, thread_index);
                         bits.get_bit_lwe(self, start + local_bit, &mut tmp_lwe, ks_glwe, ks_lwe, scratch_2);
                         cbt.execute_to_constant(self, &mut tmp_ggsw, &tmp_lwe, 1, 1, scratch_2);
                         self.ggsw_prepare(dst, &tmp_ggsw, scratch_2);
                     }
                 });
+                #[cfg(feature = "verif")]
+                poulpy_hal::verif::after_spawn(verif_tok);
             }
+            #[cfg(feature = "verif")]
+            poulpy_hal::verif::join_begin();
         });
 
         for i in 0..bit_start {
